@@ -118,7 +118,9 @@ def main(argv=None):
         for v in new:
             bymech.setdefault(v["mechanism"], []).append(v)
         for mech, vs in sorted(bymech.items()):
-            path = os.path.join(HOME, "replays", "%s-%s-seed%d.json" % (pid, _safe(mech), args.seed))
+            rdir = os.environ.get("VERIF_REPLAY_DIR") or os.path.join(HOME, "replays")
+            os.makedirs(rdir, exist_ok=True)
+            path = os.path.join(rdir, "%s-%s-seed%d.json" % (pid, _safe(mech), args.seed))
             with open(path, "w") as f:
                 json.dump({"property": pid, "mechanism": mech, "count": len(vs),
                            "msg": vs[0]["msg"], "case": vs[0].get("case"),
